@@ -20,9 +20,12 @@ func TestVerifC10(t *testing.T) {
 	if ev.Thorough() {
 		depth = 8
 	}
-	r.Rule(fmt.Sprintf("breadth-first search to depth %d (from the empty cluster and from roots with bound pods) over {podCreate on node-1 / on node-2 after a removal (same name, new UID), podExit, podRemove, reconcilePod(i), reconcilePodENI(i) — the two REAL controllers observe in any order —, gcCR, gcENI, clock steps around 1 min / TTL / 10 min, one-shot faults on Create/Attach/Detach/Delete, on the PodENI create call and on the next read of a Pod object} x trunk on/off x pod kinds {elastic, fixed, two interfaces}; oracles on every transition: (phase, phase') in the documented relation, a record disappears only from Deleting, no Detach/Delete of an interface whose record carries the UID of a pod that is still running; closure from every state: deleted elastic pod => record and interface gone, no controller-created interface without a record after the leak collector", depth))
+	r.Rule(fmt.Sprintf("breadth-first search to depth %d (from the empty cluster and from roots with bound pods) over {podCreate on node-1 / on node-2 after a removal (same name, new UID), podExit, podRemove, reconcilePod(i), reconcilePodENI(i) — the two REAL controllers observe in any order —, gcCR, gcENI, clock steps around 1 min / TTL / 10 min, one-shot faults on Create/Attach/Detach/Delete, on the PodENI create call and on the next read of a Pod object} x trunk on/off x pod kinds {elastic, fixed, two interfaces}; oracles on every transition: (phase, phase') in the documented relation, a record disappears only from Deleting, no Detach/Delete of an interface whose record carries the UID of a pod that is still running; in the single-pod splitGC configurations the record collector is a second thread preempted between its reads and its status writes (gcCR/begin holds the writes back, any events follow, gcCR/end issues them unchanged against the then-current API server - resourceVersion preconditions and merge patches behave as on the wire); closure from every state: deleted elastic pod => record and interface gone, no controller-created interface without a record after the leak collector", depth))
 	var cfgs []pwCfg
 	for _, trunk := range []bool{false, true} {
+		// the record collector preempted between its reads and its writes, other events in between (no cloud faults: the
+		// budget goes into the interleaving)
+		cfgs = append(cfgs, pwCfg{Trunk: trunk, Kinds: []string{"elastic"}, SplitGC: true}, pwCfg{Trunk: trunk, Kinds: []string{"two"}, SplitGC: true})
 		cfgs = append(cfgs, pwCfg{Trunk: trunk, Kinds: []string{"elastic"}, Faults: true}, pwCfg{Trunk: trunk, Kinds: []string{"two"}, Faults: true}, pwCfg{Trunk: trunk, Kinds: []string{"elastic", "fixed-ttl"}})
 	}
 	pwRunBFS(r, t, "C10", cfgs, depth, func(cfg pwCfg) [][]string {
